@@ -3,6 +3,7 @@ import importlib
 
 # property -> (module, quick runs, thorough runs)
 TABLE = {
+    "C12": ("dsim.c12", 40_000, 3_000_000),
     "C16": ("dsim.c16", 60_000, 6_000_000),
     "C05": ("dsim.c05", 60_000, 3_000_000),
     "C11": ("dsim.c11", 60_000, 6_000_000),
@@ -18,6 +19,13 @@ def budget(prop, tier):
 
 
 MANIFEST_CHECKS = {
+    "C12": {
+        "level": "exploration",
+        "technique": "deterministic simulation: seeded add/remove/rename/replace histories (incl. rejected calls) on live Textgrids vs an ordered-list model; tier-wise edits differential against the real per-tier operations",
+        "design_ref": "DESIGN.md s4 C12",
+        "text": "Seeded search over histories (3-12 steps quick, up to 30 thorough) of addTier (indices -2..len+2 or None), removeTier, renameTier, replaceTier and their rejected variants (name clash, missing name, invalid option, span change under reportingMode='error') on 1-3 live textgrids over <= 4 names; after every step names, order, identity of the tier each name maps to, span and outcome class are compared with an ordered-list model, and rejected calls must leave the map as it was. crop/eraseRegion/insertSpace/editTimestamps/mergeTiers at textgrid level are compared tier by tier (exact) with the real tier-level operation, and validate() must hold where the statement requires it. The property's wish for exhaustive depth-5 closure is model checking and is not delivered; evidence reports the reached (state, op, outcome) table. Sampling, not proof.",
+        "note": "Trusted: TgModel (90 lines). Tier-wise clause is differential against praatio's own tier methods (the property's wording), so a bug common to both levels is invisible. Span of edited textgrids is only constrained through validate().",
+    },
     "C16": {
         "level": "exploration",
         "technique": "deterministic simulation: seeded edit histories on live Wav buffers vs a list-of-samples model, with save/open/QueryWav through an in-memory FS seam",
